@@ -54,6 +54,9 @@ def step (_ : Unit) (op impl : String) : Unit × DrvOut :=
       let spec := if words impl == want then "ok" else "FAIL a handler answer is not the requested page of the whole list (itemCount/pageCount/slice)"
       ((), { model, spec })
     | _, _, _ => ((), { model := "bad-op" })
+  | ["hlc", _ipp, _walks, _names] =>
+    -- spec only: every walk over pages 0..pageCount-1 of GET /v3/config/paths/list holds each configured path once
+    ((), { model := "ok", spec := if impl == "ok" then "ok" else "FAIL pages of the configuration paths list do not partition the list within one walk: " ++ impl })
   | _ => ((), { model := "bad-op" })
 
 def main (args : List String) : IO UInt32 := runDriver args () step
